@@ -25,6 +25,7 @@ EXPLANATION = (
     "the fact must hold where the dispatcher looks up the subscribers of an incoming message (delivery gate for both receive "
     "loops). Decides the release/silence discipline in package code; leaks inside asyncio or the OS are not decided."
     ' R7: package callers await the graceful close directly (or its closer sits in a finally). R8: every library call on the release path is one of a frozen list of non-raising release operations.'
+    ' R8 also: no expression in the closer or before it in report_fatal_error can raise by itself. R9: a fresh resource is registered for the closer before anything else is done with it.'
 )
 ASSUMPTIONS = [
     "M1-M5 of DESIGN.md section 2",
